@@ -8,7 +8,7 @@
     [D] is SHA-256 as a function from byte strings to digests. *)
 From Coq Require Import List NArith ZArith Bool Lia.
 From Verif Require Import Lib.Bytes Obj.Base Obj.CheckReader Obj.CheckReaderProofs
-  Obj.Store Obj.StoreProofs Obj.StoreLive Obj.StoreMulti Obj.Mem Obj.MemProofs Obj.ObjGen Gen.ObjSkel.
+  Obj.Store Obj.StoreProofs Obj.StoreLive Obj.StoreMulti Obj.Mem Obj.MemProofs Obj.Round3 Obj.ObjGen Gen.ObjSkel.
 Import ListNotations.
 Local Open Scope N_scope.
 
@@ -178,6 +178,42 @@ Theorem C18_digest_key_is_valid : forall d,
 Proof. exact hex_key_valid. Qed.
 Print Assumptions C18_digest_key_is_valid.
 
+(** ** A store opened again on its directory (a restarted process)
+
+    What any generation of calls leaves behind is a well-formed initial
+    directory for the next store object: all of the above holds again, any
+    number of times; and objects of an earlier generation are still there,
+    unchanged, at every moment of a later one. *)
+Theorem C18_fs_restart : forall D objs0 inputs sched,
+  wf_objs D objs0 -> wf_objs D (objs (sfs (runs D objs0 inputs sched))).
+Proof. exact fs_restart_wf. Qed.
+Print Assumptions C18_fs_restart.
+
+Theorem C18_fs_restart_keeps_objects : forall D objs0 in1 sched1 in2 sched2 k c,
+  wf_objs D objs0 ->
+  let gen1 := objs (sfs (runs D objs0 in1 sched1)) in
+  lookup_key k gen1 = Some c ->
+  lookup_key k (objs (sfs (runs D gen1 in2 sched2))) = Some c.
+Proof. exact fs_restart_keeps_objects. Qed.
+Print Assumptions C18_fs_restart_keeps_objects.
+
+(** A string that is not a key — a key with a path suffix, a character just
+    outside the ranges, 64 characters that spell a path — is never found,
+    whatever lies in or beside the directory. *)
+Theorem C18_fs_non_key_never_found : forall st k,
+  valid_key gen_key_len gen_key_ranges k = false ->
+  fs_open gen_key_len gen_key_ranges st k = ONotFound /\ fs_has gen_key_len gen_key_ranges st k = false.
+Proof. exact (invalid_key_never_found gen_key_len gen_key_ranges). Qed.
+Print Assumptions C18_fs_non_key_never_found.
+
+(** A key is one plain file name (64 characters; no separator, dot, NUL or
+    backslash): its file is a direct child of the store directory. *)
+Theorem C18_key_is_a_plain_file_name : forall k,
+  valid_key gen_key_len gen_key_ranges k = true ->
+  length k = 64%nat /\ Forall (fun ch => ch <> 47 /\ ch <> 46 /\ ch <> 0 /\ ch <> 92) k.
+Proof. exact valid_key_plain_name. Qed.
+Print Assumptions C18_key_is_a_plain_file_name.
+
 (** ** Several store objects on one directory, files already in tmp/,
     threads calling Open and Has
 
@@ -280,6 +316,33 @@ Theorem C18_mem_create_then_found : forall D st s c,
   snd (mem_step D gen_mem_put_copies gen_mem_get_copies st1 (MOpen (HkM D c))) = MRBytes c.
 Proof. exact mem_create_then_has. Qed.
 Print Assumptions C18_mem_create_then_found.
+
+(** The mapped store over ANY user-supplied Store, in every shape its
+    results may take (zero result and error; NON-ZERO result and error): the
+    store stays sound; bytes, a key or a Has answer reach the caller only from
+    a call in which the Store reported no error, and are then right; with an
+    error, the error alone comes back. *)
+Theorem C18_mapped_user_store_sound : forall D st sh op,
+  mem_ok D st ->
+  mem_ok D (fst (mem_ustep D gen_mem_put_copies gen_mem_get_copies st sh op)) /\
+  ures_sound D sh op (snd (mem_ustep D gen_mem_put_copies gen_mem_get_copies st sh op)).
+Proof. exact (fun D st sh op H => conj (mem_ustep_ok D st sh op H) (mem_ustep_sound D st sh op H)). Qed.
+Print Assumptions C18_mapped_user_store_sound.
+
+Theorem C18_mapped_user_store_error_alone : forall D st k e,
+  mem_ustep D gen_mem_put_copies gen_mem_get_copies st (UErr e) (MpOpen k) = (st, MRErr e) /\
+  mem_ustep D gen_mem_put_copies gen_mem_get_copies st (UBoth e) (MpOpen k) = (st, MRErr e) /\
+  mem_ustep D gen_mem_put_copies gen_mem_get_copies st (UErr e) (MpHas k) = (st, MRErr e) /\
+  mem_ustep D gen_mem_put_copies gen_mem_get_copies st (UBoth e) (MpHas k) = (st, MRErr e).
+Proof. exact mem_ustep_error_alone. Qed.
+Print Assumptions C18_mapped_user_store_error_alone.
+
+Theorem C18_mapped_user_store_create_error : forall D st s c e,
+  drain s = (c, REof) ->
+  mem_ustep D gen_mem_put_copies gen_mem_get_copies st (UErr e) (MpCreate s) = (st, MRErr e) /\
+  snd (mem_ustep D gen_mem_put_copies gen_mem_get_copies st (UBoth e) (MpCreate s)) = MRErr e.
+Proof. exact mem_ustep_create_error. Qed.
+Print Assumptions C18_mapped_user_store_create_error.
 
 (** The JSON helpers (objects/json.go): CreateJSON then ReadJSON gives the
     value back, and whatever ReadJSON decodes was decoded from bytes that
@@ -418,11 +481,12 @@ Theorem C18_source_frozen :
   gen_key_shape_ok = true /\ gen_key_len = std_key_len /\ gen_key_ranges = std_key_ranges /\
   valid_key gen_key_len gen_key_ranges gen_tmp_dir_name = false /\
   gen_mem_put_copies = true /\ gen_mem_get_copies = true /\
+  (gen_tmp_name_src = std_tmp_name_src /\ (16 <=? gen_tmp_name_bytes) = true /\ gen_tmp_in_dir = true) /\
   first_diff 0 frozen_texts = None.
 Proof.
   exact (conj gen_fs_create_frozen (conj gen_fs_commit_frozen (conj gen_key_shape
         (conj gen_key_len_frozen (conj gen_key_ranges_frozen (conj gen_tmp_dir_not_a_key
-        (conj gen_mem_put_copies_ok (conj gen_mem_get_copies_ok gen_texts_frozen)))))))).
+        (conj gen_mem_put_copies_ok (conj gen_mem_get_copies_ok (conj gen_tmp_name_ok gen_texts_frozen))))))))).
 Qed.
 Print Assumptions C18_source_frozen.
 
@@ -532,3 +596,20 @@ Proof.
   split; [intros j Hj; do 3 (destruct j as [|j]; [reflexivity|]); cbn in Hj; lia|].
   vm_compute. repeat split.
 Qed.
+
+(** Restart, non-keys and the user Store are not vacuous: a second generation
+    on what the first left; a key with a path suffix; a Store that hands out
+    the bytes together with an error. *)
+Example C18_nonvacuous_round3 :
+  let k := Hk toyD [1; 2; 3] in
+  let gen1 := objs (sfs (runs toyD [] [[([1; 2; 3], REof)]] (repeat (0%nat, false) 14))) in
+  map fst gen1 = [k] /\
+  map res (sthr (runs toyD gen1 [[([1; 2; 3], REof)]; [([4], REof)]]
+                      (flat_map (fun _ => [(0%nat, false); (1%nat, false)]) (repeat tt 20))))
+    = [Some (ROk k); Some (ROk (Hk toyD [4]))] /\
+  valid_key gen_key_len gen_key_ranges (k ++ [47; 46; 46; 47] ++ k) = false /\
+  valid_key gen_key_len gen_key_ranges k = true /\
+  (let st1 := fst (mem_step toyD true true mem_empty (MpCreate [([7; 8], REof)])) in
+   snd (mem_ustep toyD true true st1 UPlain (MpOpen (HkM toyD [7; 8]))) = MRBytes [7; 8] /\
+   snd (mem_ustep toyD true true st1 (UBoth 5) (MpOpen (HkM toyD [7; 8]))) = MRErr 5).
+Proof. vm_compute. repeat split. Qed.
